@@ -216,10 +216,22 @@ func ruleC15CheckFirst(c *Ctx, r *R) {
 			r.undecided(sp.fn+"|missing", token.NoPos, "anchor function not found")
 			continue
 		}
+		// Next may dispatch through a state-function field (next func() (T, bool), set to iter.start at first and to iter.resume
+		// by start): what Next does is what each of the methods ever stored there does
+		targets := stateFuncTargets(c, fn)
 		contGen, iterGen := genFieldsOf(fn, sp.contPkg, sp.contType)
+		for _, t := range targets {
+			if contGen == "" {
+				contGen, iterGen = genFieldsOf(t, sp.contPkg, sp.contType)
+			}
+		}
 		if contGen == "" {
 			r.undecided(sp.fn+"|generation-check", fn.Pos(), "no comparison of the container's generation with the iterator's snapshot found in Next")
 			continue
+		}
+		bodies := []*ssa.Function{fn}
+		if len(targets) > 0 {
+			bodies = targets
 		}
 		isGenLoad := func(v ssa.Value) (iterSide bool, ok bool) {
 			u, isU := resolveVal(v).(*ssa.UnOp)
@@ -291,9 +303,99 @@ func ruleC15CheckFirst(c *Ctx, r *R) {
 			key := sp.fn + "|" + what + "#" + itoa(n)
 			r.ok(!before.has(0), key, posOf(in), what+" must come after the generation check on every path")
 		}
-		pf.Exits(fn, ss(0))
+		for _, body := range bodies {
+			pf.Exits(body, ss(0))
+		}
 	}
 }
+
+// stateFuncTargets: fn does nothing but call a func-typed field of its receiver and return what that returns; the methods
+// (of the same receiver type) whose bound method values are ever stored into that field. nil when fn is not of that shape or
+// anything else is stored there.
+func stateFuncTargets(c *Ctx, fn *ssa.Function) []*ssa.Function {
+	if len(fn.Blocks) != 1 || len(fn.Params) == 0 {
+		return nil
+	}
+	var fld *ssa.FieldAddr
+	for _, in := range fn.Blocks[0].Instrs {
+		switch x := in.(type) {
+		case *ssa.FieldAddr, *ssa.UnOp, *ssa.Extract, *ssa.Return, *ssa.DebugRef:
+		case *ssa.Call:
+			ld, ok := x.Call.Value.(*ssa.UnOp)
+			if !ok || ld.Op != token.MUL || fld != nil {
+				return nil
+			}
+			fa, ok := ld.X.(*ssa.FieldAddr)
+			if !ok || fa.X != ssa.Value(fn.Params[0]) {
+				return nil
+			}
+			fld = fa
+		default:
+			return nil
+		}
+	}
+	if fld == nil {
+		return nil
+	}
+	nt, ok := derefType(fld.X.Type()).(*types.Named)
+	if !ok {
+		return nil
+	}
+	var out []*ssa.Function
+	seen := map[*ssa.Function]bool{}
+	bad := false
+	for _, f2 := range c.Funcs {
+		if rootFn(f2).Pkg != rootFn(fn).Pkg {
+			continue
+		}
+		instrs(f2, func(_ *ssa.BasicBlock, _ int, in ssa.Instruction) {
+			st, ok := in.(*ssa.Store)
+			if !ok {
+				return
+			}
+			fa, ok := st.Addr.(*ssa.FieldAddr)
+			if !ok || fa.Field != fld.Field {
+				return
+			}
+			nt2, ok := derefType(fa.X.Type()).(*types.Named)
+			if !ok || nt2.Origin() != nt.Origin() {
+				return
+			}
+			mc, ok := st.Val.(*ssa.MakeClosure)
+			if !ok {
+				bad = true
+				return
+			}
+			w, _ := mc.Fn.(*ssa.Function)
+			if w == nil || !strings.HasSuffix(w.Name(), "$bound") {
+				bad = true
+				return
+			}
+			var target *ssa.Function
+			for _, tb := range w.Blocks {
+				for _, tin := range tb.Instrs {
+					if tc, ok := tin.(*ssa.Call); ok && target == nil {
+						target = origin(tc.Call.StaticCallee())
+					}
+				}
+			}
+			if target == nil || target.Blocks == nil {
+				bad = true
+				return
+			}
+			if !seen[target] {
+				seen[target] = true
+				out = append(out, target)
+			}
+		})
+	}
+	if bad {
+		return nil
+	}
+	sort.Slice(out, func(i, j int) bool { return out[i].Name() < out[j].Name() })
+	return out
+}
+
 
 func ruleC15Wrappers(c *Ctx, r *R) {
 	for _, name := range []string{"container/xheap.Heap.Iterate", "container/xheap.PriorityQueue.Iterate", "container/deque.Deque.Iterate"} {
